@@ -215,10 +215,11 @@ def judge_calls(rec, lab, vf, e, case):
     # ---- get_new
     if symbol_elsewhere:
         pass
-    elif last == "" and cur and cur not in ("*", ">"):
-        # no version exists at all and the Sid carries one: the statement does not say what 'successor of the last' is
-        rec.unspec("get_new_without_any_existing_version")
     elif last is not None and cur not in ("*", ">"):
+        # (no version exists at all: the successor of "nothing" is the first version - whatever version the Sid itself carries;
+        #  "for any Sid with or without a version and any set of existing versions", the documented "or first version if there is no version")
+        if last == "" and cur:
+            rec.count("get_new_without_any_existing_version")
         n = (vf.num(last.split("/")[model.by_name[Sid(last).type].keys.index("version")]) if last else 0) + 1
         v = vf.fmt(n)
         if not v:
